@@ -16,3 +16,31 @@ Definition servable (reg : registry) (mt : bytes) : bool := has_key reg mt || ha
 
 Fixpoint is_infix (p s : bytes) : bool :=
   has_prefix p s || match s with [] => false | _ :: r => is_infix p r end.
+
+(* ---- the call was carried by client c (identity who) and by no other ----
+   every part of the trace is what c alone determines: its transport (the process default when it has none),
+   its jar, its redirect policy, its timeout *)
+Definition behaves_as (who : nat) (c : client_cfg) (slow : bool) (t : call_trace) : bool :=
+  Nat.eqb (t_transport t) (if c_transport c then who else who_default) &&
+  Nat.eqb (t_jar t) (mask_of (c_jar c) who) &&
+  Nat.eqb (t_cookie t) (mask_of (c_jar c) who) &&
+  (if slow && c_timeout c
+   then Nat.eqb (t_result t) 2 && Nat.eqb (t_redirect t) 0
+   else Nat.eqb (t_redirect t) (mask_of (negb (Nat.eqb (c_redirect c) 0)) who) &&
+        Nat.eqb (t_result t) (if Nat.eqb (c_redirect c) 2 then 1 else 0)).
+
+(* a per-operation client takes precedence over the runtime-wide one: whenever the operation names a client,
+   that client carried the call, whichever fields it sets *)
+Definition right_client (op : option client_cfg) (rt : client_cfg) (slow : bool) (t : call_trace) : bool :=
+  match op with
+  | Some c => behaves_as who_op c slow t
+  | None => behaves_as who_rt rt slow t
+  end.
+
+Definition trace_eqb (a b : call_trace) : bool :=
+  Nat.eqb (t_transport a) (t_transport b) && Nat.eqb (t_redirect a) (t_redirect b) &&
+  Nat.eqb (t_jar a) (t_jar b) && Nat.eqb (t_cookie a) (t_cookie b) && Nat.eqb (t_result a) (t_result b).
+
+Definition view_eqb (a b : nat * bytes * bytes * bytes) : bool :=
+  let '(c1, s1, t1, h1) := a in let '(c2, s2, t2, h2) := b in
+  Nat.eqb c1 c2 && bytes_eqb s1 s2 && bytes_eqb t1 t2 && bytes_eqb h1 h2.
